@@ -1191,7 +1191,7 @@ pub const C04_KINDS: [&str; 10] = [
     "DeadDelivered",
 ];
 
-pub const C05_KINDS: [&str; 2] = ["DoubleDrop", "DropOfUnknown"];
+pub const C05_KINDS: [&str; 3] = ["DoubleDrop", "DropOfUnknown", "ChangedDuringDrop"];
 
 /// C05: after the last handle is gone every instance has been dropped exactly once
 pub fn ledger_final(h: &Hist) -> Vec<Finding> {
